@@ -15,6 +15,20 @@ R1 wiring of the dense / convolution arm of generate_layer_data_type_map:
    values, and the outgoing edge must receive accumulator.output.
 R2 channel loop of estimate.analyze_accumulator: a loop index that ranges
    over k.shape[p] and is used as k[..., i] requires p == -1.
+R4 auto-po2 adjustment (qtools_util.adjust_multiplier_for_auto_po2 /
+   adjust_accumulator_for_auto_po2, interpreted with symbolic widths and a
+   symbolic per-channel power-of-two scale): the adjusted multiplier must
+   gain log2(max scale) integer bits and log2(1/min scale) fractional bits
+   (so that the product with every channel's scale is representable), a
+   never-called quantizer leaves it unchanged, and the fused accumulator
+   must be built from the adjusted copy - not the original - with the same
+   kernel-shape rule (depthwise: spatial dims only) and bias adder as the
+   plain accumulator.
+R5 activation propagation (qgraph.GraphPropagateActivationsToEdges,
+   interpreted on a synthetic graph): every outgoing edge of a vertex - and
+   the vertex's out_quantizer - carries the quantizer of QActivation /
+   QAdaptiveActivation layers, the inline activation of other layers, and
+   None for "linear" or for layers without an activation.
 R3 exponent bookkeeping of power-of-two operands: the (min, max) exponent
    pair that qtools derives from a converted quantized_po2 /
    quantized_relu_po2 (get_min_max_exp, on which the shifter, po2 adders and
@@ -51,7 +65,7 @@ def find_arm(fn):
   return None
 
 
-def run_arm(repo, arm, gm, node_type, use_bias):
+def run_arm(repo, arm, gm, node_type, use_bias, auto_po2=False):
   log = []
 
   def tagq(tag, **kw):
@@ -60,6 +74,13 @@ def run_arm(repo, arm, gm, node_type, use_bias):
     a.update(kw)
     return Mock(tag, a)
   qk_w, qk_b = tagq("qkeras_weight_q"), tagq("qkeras_bias_q")
+  if auto_po2:
+    qk_w.attrs["alpha"] = "auto_po2"
+    qk_w.attrs["__str__"] = lambda pe, a, k: \
+        "quantized_bits(4,0,1,alpha='auto_po2')"
+  else:
+    qk_w.attrs["alpha"] = None
+    qk_w.attrs["__str__"] = lambda pe, a, k: "quantized_bits(4,0,1)"
   conv = {}
 
   def make_quantizer(pe, a, k):
@@ -110,9 +131,20 @@ def run_arm(repo, arm, gm, node_type, use_bias):
   def update_out(pe, a, k):
     edge_updates.append(a[3])
     return a[3]
+  def adj_acc(pe, a, k):
+    f = Mock("fused_accumulator", {"output": tagq("fused_acc.output")})
+    log.append(("adjust_accumulator", a[0], a[1], a[2], a[3], f))
+    return f
+  qutil = Mock("qtools_util", {
+      "adjust_accumulator_for_auto_po2": adj_acc,
+      "adjust_multiplier_for_auto_po2": lambda pe, a, k: log.append(
+          ("adjust_multiplier", a[0], a[1])),
+      "get_weights": lambda pe, a, k: [Mock("kernel", {"shape": kshape}),
+                                       Mock("bias", {"shape": (8,)})]})
   pe = PE(repo, module_overrides={gm.name: {
       "update_output_quantizer_in_graph": update_out,
-      "quantized_operators": qops, "adder_factory": adder_factory}})
+      "quantized_operators": qops, "adder_factory": adder_factory,
+      "qtools_util": qutil}})
   pe.opaque_ext = True
   pe.fork = Fork([])
   lmap = {}
@@ -222,6 +254,43 @@ def rule_wiring(rep, repo):
                 "%s: the outgoing edge is updated with %s, expected the "
                 "output type of the entry's accumulator" %
                 (cfg, edges), loc=loc, instance=cfg)
+      # scale-adjusted accumulator entry
+      rep.check("fused_accumulator" in ent and
+                ent["fused_accumulator"] is ent.get("accumulator") and
+                not [l for l in log if l[0].startswith("adjust_")], "R1",
+                unit, "fused-accumulator-without-auto-po2",
+                "%s: without an auto_po2 kernel the fused_accumulator entry "
+                "must be the accumulator itself and no adjustment may run"
+                % cfg, loc=loc, instance=cfg)
+      try:
+        log2, lmap2, _, env2 = run_arm(repo, arm, gm, node_type, use_bias,
+                                       auto_po2=True)
+      except PyRaise as e:
+        rep.fail("R1", unit, "arm-raises:auto_po2",
+                 "%s with an auto_po2 kernel: the arm raises %s" % (cfg, e),
+                 loc=loc, instance=cfg)
+        continue
+      ent2 = lmap2.get(env2["layer"]) or {}
+      aa = [l for l in log2 if l[0] == "adjust_accumulator"]
+      mm2 = [l for l in log2 if l[0] == "make_multiplier"]
+      okf = len(aa) == 1 and mm2 and aa[0][1] is env2["layer"] and \
+          aa[0][2] is mm2[0][3] and aa[0][3] is env2["qk_w"] and \
+          ent2.get("fused_accumulator") is aa[0][5] and \
+          ent2.get("accumulator") is not aa[0][5]
+      if okf:
+        bq = aa[0][4]
+        okf = (isinstance(bq, Mock) and bq.attrs.get("__src__") is
+               env2["qk_b"]) if use_bias else True
+      rep.check(okf, "R1", unit, "fused-accumulator-wiring",
+                "%s with an auto_po2 quantized_bits kernel: the "
+                "fused_accumulator entry must be "
+                "adjust_accumulator_for_auto_po2(layer, the layer's "
+                "multiplier, the qkeras weight quantizer, the bias "
+                "quantizer) and differ from the plain accumulator; calls: "
+                "%s, stored: %s" % (cfg, [(a[1], a[2], a[3], a[4])
+                                         for a in aa],
+                                    ent2.get("fused_accumulator")),
+                loc=loc, instance=cfg)
       if len(rep.samples) < 4:
         rep.sample({"layer": cfg, "calls": [l[0] for l in log],
                     "entry_keys": sorted(ent)})
@@ -340,6 +409,234 @@ def rule_po2_exponents(rep, repo, tier, rule="R3"):
                         "compared" % n)
 
 
+def rule_auto_po2_adjust(rep, repo):
+  from ..pe import mkfloat
+  from ..qir import Fwd
+  from ..nf import NF, show
+  qu = repo.module("qkeras.qtools.qtools_util")
+  for fname in ("adjust_multiplier_for_auto_po2",
+                "adjust_accumulator_for_auto_po2"):
+    if fname not in qu.functions:
+      raise AnalysisError("anchor-missing qtools_util.%s" % fname)
+  fn = qu.functions["adjust_multiplier_for_auto_po2"]
+  unit = "%s::adjust_multiplier_for_auto_po2" % qu.relpath
+  rep.unit(unit)
+  loc = qu.loc(fn)
+
+  def S(n):
+    return Tensor(("sym", n), ())
+  fw = Fwd()
+  b, i = NF.sym("b"), NF.sym("i")
+
+  def run(scale_fn, alpha="auto_po2", text="quantized_bits(4,0,1,"
+          "alpha='auto_po2')"):
+    out = Mock("out", {"bits": S("b"), "int_bits": S("i"), "is_signed": 1})
+    mult = Mock("mult", {"output": out})
+    wq = Mock("wq", {"alpha": alpha, "__str__": lambda pe, a, k: text})
+    pe = PE(repo, module_overrides={qu.name: {
+        "get_scale_from_quantized_bits_with_auto_po2": scale_fn}})
+    pe.opaque_ext = True
+    pe.call(pe.lookup_global("adjust_multiplier_for_auto_po2", qu),
+            [mult, wq], {})
+    g = lambda v: fw(v.term) if isinstance(v, Tensor) else NF.const(F(v))
+    return g(out.attrs["bits"]), g(out.attrs["int_bits"])
+  cases = [
+      ("per-channel scale array",
+       lambda pe, a, k: Tensor(("sym", "scale"), (1, 8)), None),
+      ("scalar scale 1/4", lambda pe, a, k: mkfloat(F(1, 4)), (-2, -2)),
+      ("scalar scale 8", lambda pe, a, k: mkfloat(F(8)), (3, 3)),
+      ("quantizer never called (scale None)", lambda pe, a, k: None, (0, 0)),
+  ]
+  for label, sfn, shifts in cases:
+    try:
+      bits, ib = run(sfn)
+    except PyRaise as e:
+      rep.fail("R4", unit, "adjust-raises:" + label,
+               "%s: raises %s" % (label, e), loc=loc)
+      continue
+    if shifts is None:
+      atoms = {a[1]: a for a in (bits - b).atoms() | (ib - i).atoms()
+               if a[0] == "app"}
+      lmax = [a for a in ib.atoms() if a[0] == "app" and a[1] == "log2"]
+      ok = len(lmax) == 1 and ib == i + NF.atom(lmax[0]) and any(
+          x[0] == "app" and x[1] == "reduce_max"
+          for x in lmax[0][3][0].atoms())
+      rep.check(ok, "R4", unit, "int-bits-not-shifted-by-max-scale",
+                "%s: int_bits become %s, expected i + log2(max scale)" %
+                (label, show(ib)), loc=loc)
+      fr_ = bits - ib - (b - i)
+      lmin = [a for a in fr_.atoms() if a[0] == "app" and a[1] == "log2"]
+      ok = len(lmin) == 1 and fr_ == -NF.atom(lmin[0]) and any(
+          x[0] == "app" and x[1] == "reduce_min"
+          for x in lmin[0][3][0].atoms())
+      rep.check(ok, "R4", unit, "frac-bits-not-shifted-by-min-scale",
+                "%s: fractional bits change by %s, expected -log2(min "
+                "scale)" % (label, show(fr_)), loc=loc)
+    else:
+      lo, hi = shifts
+      rep.check(ib == i + hi and bits - ib == (b - i) - lo, "R4", unit,
+                "scalar-scale-adjustment:" + label,
+                "%s: bits=%s int_bits=%s, expected int_bits i%+d and %+d "
+                "fractional bits" % (label, show(bits), show(ib), hi, -lo),
+                loc=loc)
+  # a non-quantized_bits auto_po2 quantizer is documented as unsupported:
+  # unchanged
+  try:
+    bits, ib = run(lambda pe, a, k: mkfloat(F(4)), text="binary(alpha="
+                   "'auto_po2')")
+    rep.check(bits == b and ib == i, "R4", unit, "unsupported-kind-adjusted",
+              "a binary auto_po2 weight quantizer changes the multiplier to "
+              "bits=%s int_bits=%s" % (show(bits), show(ib)), loc=loc)
+  except PyRaise as e:
+    rep.fail("R4", unit, "adjust-raises:binary", "raises %s" % e, loc=loc)
+  # ---- fused accumulator wiring
+  fn2 = qu.functions["adjust_accumulator_for_auto_po2"]
+  unit2 = "%s::adjust_accumulator_for_auto_po2" % qu.relpath
+  rep.unit(unit2)
+  loc2 = qu.loc(fn2)
+  for cname, use_bias in (("QConv2D", True), ("QConv2D", False),
+                          ("QDepthwiseConv2D", True), ("QDense", True)):
+    log = {}
+    kshape = (3, 3, 4, 1) if "Depthwise" in cname else (
+        (16, 8) if cname == "QDense" else (3, 3, 4, 8))
+    out = Mock("out", {"bits": 8, "int_bits": 2, "is_signed": 1,
+                       "__copyable__": True})
+    mult = Mock("mult", {"output": out, "__copyable__": True})
+    adjusted = []
+
+    def adj(pe, a, k, adjusted=adjusted):
+      adjusted.append(a[0])
+      a[0].attrs["adjusted"] = True
+    acc_out = Mock("kernel_accumulator_output", {})
+    kacc = Mock("kernel_accumulator", {"output": acc_out})
+
+    def make_acc(pe, a, k, log=log):
+      log["acc"] = (a[0], a[1], k.get("use_bias", a[2] if len(a) > 2
+                                      else None))
+      return kacc
+    bias_adder = Mock("bias_adder", {})
+
+    def make_q(pe, a, k, log=log):
+      log["adder"] = (a[0], a[1])
+      return bias_adder
+    qo = Mock("quantized_operators", {
+        "AccumulatorFactory": lambda pe, a, k: Mock(
+            "accfac", {"make_accumulator": make_acc}),
+        "adder_factory": Mock("adder_factory", {
+            "IAdder": lambda pe, a, k: Mock("iadder",
+                                            {"make_quantizer": make_q})})})
+    layer = Mock(cname, {
+        "__class__": Mock("class", {"__name__": cname}),
+        "use_bias": use_bias,
+        "get_weights": lambda pe, a, k: [Mock("kernel", {"shape": kshape}),
+                                         Mock("bias", {"shape": (8,)})]})
+    bq = Mock("bias_quantizer", {})
+    pe = PE(repo, module_overrides={qu.name: {
+        "adjust_multiplier_for_auto_po2": adj, "quantized_operators": qo}})
+    pe.opaque_ext = True
+    cfg = "%s(use_bias=%s)" % (cname, use_bias)
+    try:
+      r = pe.call(pe.lookup_global("adjust_accumulator_for_auto_po2", qu),
+                  [layer, mult, Mock("wq", {}), bq], {})
+    except PyRaise as e:
+      rep.fail("R4", unit2, "fused-accumulator-raises", "%s: raises %s" %
+               (cfg, e), loc=loc2, instance=cfg)
+      continue
+    rep.check(len(adjusted) == 1 and adjusted[0] is not mult and
+              not mult.attrs.get("adjusted"), "R4", unit2,
+              "original-multiplier-modified",
+              "%s: the adjustment must be applied to a copy of the "
+              "multiplier (the per-layer multiplier entry keeps the "
+              "unscaled type)" % cfg, loc=loc2, instance=cfg)
+    acc = log.get("acc")
+    want_shape = (3, 3, 1, 1) if "Depthwise" in cname else kshape
+    rep.check(acc is not None and adjusted and acc[1] is adjusted[0] and
+              tuple(acc[0]) == want_shape and acc[2] is False, "R4", unit2,
+              "fused-kernel-accumulator-wiring",
+              "%s: the fused kernel accumulator is built from %s; expected "
+              "(kernel shape %s, the adjusted multiplier copy, "
+              "use_bias=False)" % (cfg, acc and (tuple(acc[0]), acc[1],
+                                                 acc[2]), want_shape),
+              loc=loc2, instance=cfg)
+    if use_bias:
+      ad = log.get("adder")
+      rep.check(r is bias_adder and ad is not None and ad[0] is acc_out and
+                ad[1] is bq, "R4", unit2, "fused-bias-adder-wiring",
+                "%s: the fused accumulator must be the bias adder of (fused "
+                "kernel accumulator output, bias quantizer)" % cfg,
+                loc=loc2, instance=cfg)
+    else:
+      rep.check(r is kacc and "adder" not in log, "R4", unit2,
+                "fused-accumulator-without-bias",
+                "%s: without a bias the fused accumulator is the fused "
+                "kernel accumulator" % cfg, loc=loc2, instance=cfg)
+
+
+def rule_propagation(rep, repo):
+  qg = repo.module("qkeras.qtools.qgraph")
+  fn = qg.functions.get("GraphPropagateActivationsToEdges")
+  if fn is None:
+    raise AnalysisError("anchor-missing qgraph."
+                        "GraphPropagateActivationsToEdges")
+  unit = "%s::GraphPropagateActivationsToEdges" % qg.relpath
+  rep.unit(unit)
+  loc = qg.loc(fn)
+
+  def cls(n):
+    return Mock("class", {"__name__": n})
+  qa = Mock("quantized_relu object", {"__class__": cls("quantized_relu")})
+  qb = Mock("quantized_bits object", {"__class__": cls("quantized_bits")})
+  qad = Mock("quantized_relu (adaptive)", {"__class__": cls("quantized_relu")})
+  linear = Mock("linear function", {"__name__": "linear",
+                                    "__class__": cls("function")})
+  relu = Mock("relu function", {"__name__": "relu",
+                                "__class__": cls("function")})
+  L = lambda name, c, **a: Mock(name, dict(a, name=name, __class__=cls(c)))
+  layers = {
+      1: (L("qdense_with_qa", "QDense", activation=qa), qa),
+      2: (L("dense_linear", "Dense", activation=linear), None),
+      3: (L("qactivation", "QActivation", activation="quantized_bits(4)",
+            quantizer=qb), qb),
+      4: (L("pool_without_activation", "MaxPooling2D"), None),
+      5: (L("dense_relu", "Dense", activation=relu), relu),
+      6: (L("qadaptive", "QAdaptiveActivation", activation="quantized_relu",
+            quantizer=qad), qad),
+  }
+  succ = {0: [1], 1: [2, 3], 2: [4], 3: [4], 4: [5], 5: [6], 6: [7], 7: []}
+  edges = {u: {v: {"quantizer": "<unset>", "shape": None} for v in vs}
+           for u, vs in succ.items()}
+  nodes = {0: {"layer": [None], "type": [None], "out_quantizer": None},
+           7: {"layer": [None], "type": [None], "out_quantizer": None}}
+  for i, (lyr, _) in layers.items():
+    nodes[i] = {"layer": [lyr], "type": [lyr.attrs["__class__"].attrs[
+        "__name__"]], "out_quantizer": "<unset>"}
+  graph = Mock("graph", {
+      "nodes": nodes,
+      "edges": lambda pe, a, k: [(a[0], v) for v in succ[a[0]]],
+      "__getitem__": lambda pe, a, k: edges[a[0]]})
+  pe = PE(repo)
+  pe.opaque_ext = True
+  pe.ext_overrides = {"*.topological_sort": lambda pe, a, k: list(range(8))}
+  try:
+    pe.call(pe.lookup_global("GraphPropagateActivationsToEdges", qg),
+            [graph], {})
+  except PyRaise as e:
+    rep.fail("R5", unit, "propagation-raises",
+             "raises %s on the synthetic graph" % e, loc=loc)
+    return
+  for i, (lyr, want) in sorted(layers.items()):
+    name = lyr.attrs["name"]
+    got = [edges[i][v]["quantizer"] for v in succ[i]]
+    rep.check(all(g is want for g in got), "R5", unit,
+              "edge-quantizer:" + name,
+              "outgoing edges of %s carry %s, expected %s on every edge" %
+              (name, got, want), loc=loc)
+    rep.check(nodes[i]["out_quantizer"] is want, "R5", unit,
+              "out_quantizer:" + name,
+              "out_quantizer of %s is %s, expected %s" %
+              (name, nodes[i]["out_quantizer"], want), loc=loc)
+
+
 def run(rep, repo, tier):
   rep.trusted.append("the factories' own arithmetic is C16/C17; here only "
                      "which values are wired where")
@@ -349,6 +646,10 @@ def run(rep, repo, tier):
   rule_wiring(rep, repo)
   rule_channel_loop(rep, repo)
   rule_po2_exponents(rep, repo, tier)
+  rule_auto_po2_adjust(rep, repo)
+  rule_propagation(rep, repo)
+  rep.require_instances("R5", 12)
+  rep.require_instances("R4", 14)
   rep.require_instances("R3", 200)
   rep.require_instances("R1", 40)
   rep.require_instances("R2", 1)
